@@ -62,7 +62,8 @@ def main(argv=None):
     rdir = os.path.join(VERIF, "replays", prop)
     os.makedirs(rdir, exist_ok=True)
 
-    violations = []  # (replay path, suffix)
+    violations = []  # (replay path, suffix, obligation)
+    unconfirmed = []  # refuted by a solver model that did not (or could not) fail natively
     known_hits = []
     undecided = []
     errors = []
@@ -124,12 +125,15 @@ def main(argv=None):
                     known_hits.append((kf, full))
                     continue
                 rp = write_replay(rdir, prop, r, name, o, classes)
-                violations.append(rp)
+                if rp[1] and not o.get("concrete"):
+                    unconfirmed.append(rp)
+                else:
+                    violations.append((rp[0], "" if o.get("concrete") and rp[1] and rp[3] is None else rp[1], rp[2]))
 
     # ledger: obligations proved on the pinned tree must still be generated
     for full in ledger.get(prop, []):
         if full not in proved_names and not any(full.startswith(u.split(":")[0]) for u in undecided) \
-                and not any(v[2] == full for v in violations) and not any(k[1] == full for k in known_hits):
+                and not any(v[2] == full for v in violations) and not any(u[2] == full for u in unconfirmed) and not any(k[1] == full for k in known_hits):
             undecided.append(f"{full}: in the ledger but not generated by this run")
 
     # ------------------------------------------------------------------ RTC (bounded stand-in)
@@ -162,6 +166,17 @@ def main(argv=None):
                     violations.append((p, "", "rtc:" + fl["case"]))
                 if len(samples) < 10:
                     samples.extend(rt.get("samples", [])[:4])
+
+    # refuted obligations whose counter-model did not fail on the real code:
+    #  - a native replay ran and passed, or the bounded drivers ran without failure -> spurious model
+    #    (missing axiom): UNDECIDED, never a violation;
+    #  - nothing could be run natively -> violation, marked no-failing-input-found.
+    for p, suffix, full, rep in unconfirmed:
+        if (rep is not None and rep.get("confirmed") is False) or rtc_eval > 0:
+            undecided.append(f"{full}: refuted by a solver model that does not fail on the real code "
+                             f"(native replay {'passed' if rep else 'n/a'}, {rtc_eval} bounded evaluations passed); see {p}")
+        else:
+            violations.append((p, suffix, full))
 
     # ------------------------------------------------------------------ report
     for kf, what in known_hits:
@@ -250,7 +265,7 @@ def write_replay(rdir, prop, r, name, o, classes):
     p = os.path.join(rdir, re.sub(r"[^A-Za-z0-9_.-]+", "_", full)[:140] + ".json")
     with open(p, "w") as f:
         json.dump(doc, f, indent=1, default=str)
-    return (p, suffix, full)
+    return (p, suffix, full, rep)
 
 
 def replay_file(prop, path):
